@@ -113,7 +113,11 @@ class FakeChronyd(threading.Thread):
             except (socket.timeout, OSError):
                 continue
             self.requests += 1
-            if mode == "answer":
+            if mode.startswith("slow"):
+                # every reply takes this many milliseconds
+                time.sleep(int(mode[4:]) / 1000.0)
+                rep = tracking_reply(data, ref_id=self.ref_id)
+            elif mode == "answer":
                 rep = tracking_reply(data, ref_id=self.ref_id)
             elif mode == "unsync":
                 rep = tracking_reply(data, ref_id=self.ref_id, leap=3, delay=1.0, dispersion=1.0)
